@@ -209,3 +209,49 @@ def mk_withdraw_emissions(perm):
 _t19d = tasks
 def tasks(tier):
     return _t19d(tier) + [('withdraw_emissions', mk_withdraw_emissions(False)), ('withdraw_emissions_permissionless', mk_withdraw_emissions(True))]
+
+
+# ---------------------------------------------------------------- C19.e: funding the reward pool - `emissions_remaining` is credited with exactly the amount whose pre-fee image is sent to the emissions vault
+def mk_emissions_funding(which):
+    def t(world):
+        from specs.handlers import run_handler, KERNELS, short, account_field_of
+        from specs.C12 import find_accounts
+        sname = 'LendingPoolSetupEmissions' if which == 'setup' else 'LendingPoolUpdateEmissionsParameters'
+        fnre = r'configure_bank::lending_pool_setup_emissions$' if which == 'setup' else r'configure_bank::lending_pool_update_emissions_parameters$'
+        eng, f, args, res = run_handler(world, fnre, kernels=[r'calculate_pre_fee'], merge=False, max_paths=20000)
+        ob = Ob('C19.e.' + which, f'lending_pool_{"setup_emissions" if which == "setup" else "update_emissions_parameters"}: the reward pool (`emissions_remaining`) ' +
+                ('is set to' if which == 'setup' else 'grows by') + ' exactly X tokens where the transfer sends pre_fee(X) at the current epoch from the funding account to the emissions vault of this bank - so the vault receives at least what positions can later be credited; nothing is credited without a transfer',
+                [f.name], 'handler mode; transfer-fee calculator and token CPI opaque; every accepting path'); ob.paths = len(res)
+        n_ok = 0
+        for r, okc in ok_paths(res):
+            if ob.witness(eng, r, [okc]) is False: continue
+            n_ok += 1
+            Ev = [e for e in flat_events(r['events']) if e[0] == 'call']
+            accts = {}
+            for root in r['roots']: accts.update(find_accounts(eng, root))
+            bk = [c for c, sv in accts.items() if re.sub(r'<.*', '', sv.ty).split('::')[-1] == 'Bank']
+            if len(bk) != 1: ob.fail(f'bank objects {bk}'); continue
+            B = bk[0]; rem0 = fsym(B, 'Bank', 'emissions_remaining'); rem1 = ev(fget(eng, accts[B], 'Bank', 'emissions_remaining'))
+            credited = rem1 - (rem0 if which == 'update' else 0)
+            T = [e for e in Ev if re.search(r'transfer_checked$', e[1])]; PF = [e for e in Ev if re.search(r'calculate_pre_fee_spl_deposit_amount$', e[1])]
+            if not T:
+                ob.prove(eng, r, [okc], rem1 == rem0, 'no transfer => the pool is not credited', role='funding-without-transfer'); continue
+            if len(T) != 1 or len(PF) != 1: ob.structural(f'{len(T)} transfers / {len(PF)} pre-fee computations', 'funding-shape'); continue
+            x = PF[0][2][1].e
+            ob.prove(eng, r, [okc], z3.And(credited == x * W, PF[0][2][2].e == z3.Int('clock.epoch'), zint(PF[0][3].disc) == 0, T[0][2][1].e == PF[0][3].payload[0][0].e, zint(T[0][3].disc) == 0),
+                     'pool credited with X; tokens sent == pre_fee(X) at the current epoch; errors propagated', role='funding-amount')
+            ctxs = [e for e in Ev if re.search(r'CpiContext.*::new$', e[1])]
+            tc = eng.deref_val(ctxs[-1][2][1]) if ctxs else None
+            ob.queries += 1
+            route = {k: account_field_of(eng, v, sname) for k, v in tc.fields.items() if k in ('from', 'to', 'authority', 'mint')} if isinstance(tc, StructV) else {}
+            if route.get('from') == 'emissions_funding_account' and route.get('to') == 'emissions_token_account' and route.get('mint') == 'emissions_mint': ob.unsat += 1
+            else: ob.sat += 1; ob.cex.append({'ob': ob.oid, 'label': f'funding transfer accounts are {route}', 'role': 'funding-route', 'model': {}, 'replay': None})
+        ob.notes.append(f'{n_ok} accepting paths')
+        ob.need_witness()
+        return [ob]
+    return t
+
+
+_t19e = tasks
+def tasks(tier):
+    return _t19e(tier) + [('funding_setup', mk_emissions_funding('setup')), ('funding_update', mk_emissions_funding('update'))]
